@@ -2210,3 +2210,61 @@ for _p in ("C02", "C03", "C06", "C11"):
     _old = REGISTRY[_p]
     REGISTRY[_p] = CompositeFamily(_p, (_old.parts if isinstance(_old, CompositeFamily) else [_old]) + [RibCSFamily(_p)])
 REGISTRY["C08"] = CompositeFamily("C08", REGISTRY["C08"].parts + [RibCSFamily("C08")])
+
+
+# ---------------------------------------------------------------------------
+# Directed histories added to the TLC-emitted ones (shapes the bounded alphabets do not reach)
+
+def _op(id, ni, typ, kind, key, nhs=(), g="", gni="", pl="a", eid=(0, 1), noeid=False):
+    return {"id": id, "ni": ni, "typ": typ, "kind": kind, "key": str(key), "pl": "" if typ == "DELETE" else pl, "nhs": [str(x) for x in nhs], "bk": "",
+            "g": str(g), "gni": gni, "bad": "", "eid": list(eid), "noeid": noeid}
+
+
+def c03_directed(ctx):
+    """A group re-sent with a member list that repeats an index: the members it drops lose their reference although the
+    list is as long as the old member set (and the other way round), with both kinds of replace; then every next-hop
+    and the group are deleted."""
+    out = []
+    for typ in ("ADD", "REPLACE"):
+        for old, new in (((1, 2), (1, 1)), ((1, 2), (2, 2)), ((1, 2, 3), (1, 1, 2)), ((1, 2, 3), (3, 3, 3)), ((1, 1), (1, 2)), ((1, 2), (2, 1)), ((1, 2), (1, 3))):
+            for ni in ("DEFAULT", "vrf1"):
+                w = [{"a": "reset", "nis": ["DEFAULT", "vrf1"], "fwd": True}]
+                oid = 0
+                for k in (1, 2, 3):
+                    oid += 1
+                    w.append({"a": "op", "op": _op(oid, ni, "ADD", "nh", k, noeid=True)})
+                w.append({"a": "op", "op": _op(10, ni, "ADD", "nhg", 1, nhs=old, noeid=True)})
+                w.append({"a": "op", "op": _op(11, ni, typ, "nhg", 1, nhs=new, pl="b", noeid=True)})
+                oid = 20
+                for k in (1, 2, 3):
+                    oid += 1
+                    w.append({"a": "op", "op": _op(oid, ni, "DELETE", "nh", k, noeid=True)})
+                w.append({"a": "op", "op": _op(30, ni, "DELETE", "nhg", 1, noeid=True)})
+                for k in (1, 2, 3):
+                    oid += 1
+                    w.append({"a": "op", "op": _op(oid, ni, "DELETE", "nh", k, noeid=True)})
+                out.append(json.dumps(w))
+    return out
+
+
+def c06_directed(ctx):
+    """Held operations that FAIL when they are retried, with several other held operations resolved by the same install
+    (nested retries): an explicit REPLACE held on a missing group, whose target is deleted while it is held."""
+    out = []
+    for ack in ("RIB", "RIB_FIB"):
+        for ngroups in (3, 6, 6):
+            w = [{"a": "sreset", "nis": ["DEFAULT", "vrf1"], "fwd": True}, {"a": "open", "s": "s1"},
+                 _msg("s1", {"k": "params", "red": "SINGLE_PRIMARY", "per": "PRESERVE", "ack": ack}), _msg("s1", {"k": "elec", "id": [0, 1]}),
+                 _msg("s1", {"k": "ops", "ops": [_op(1, "DEFAULT", "ADD", "nh", 9), _op(2, "DEFAULT", "ADD", "nhg", 9, nhs=(9,)), _op(3, "DEFAULT", "ADD", "v4", "k1", g=9)]}),
+                 _msg("s1", {"k": "ops", "ops": [_op(4, "DEFAULT", "REPLACE", "v4", "k1", g=100, pl="b")]}),
+                 _msg("s1", {"k": "ops", "ops": [_op(10 + i, "DEFAULT", "ADD", "nhg", 100 + i, nhs=(5,)) for i in range(ngroups)]}),
+                 _msg("s1", {"k": "ops", "ops": [_op(30, "DEFAULT", "DELETE", "v4", "k1")]}),
+                 _msg("s1", {"k": "ops", "ops": [_op(31, "DEFAULT", "ADD", "nh", 5)]}),
+                 {"a": "get", "g": {"ni": "*", "aft": "ALL"}},
+                 _msg("s1", {"k": "ops", "ops": [_op(32, "DEFAULT", "ADD", "nh", 6)]})]
+            out.append(json.dumps(w))
+    return out
+
+
+REGISTRY["C03"].parts[0].directed = c03_directed
+REGISTRY["C06"].parts[0].directed = c06_directed
